@@ -40,6 +40,13 @@ class SegsStub:
         return self.segments[i]
 
 
+class _CodeStub(tuple):
+    """What the _encode stand-in returns: ('SYM', n) with the attributes of encoder.Code (a mask the automatic choice could
+    have produced, so that code which copies it to the other symbols is seen to do so)."""
+    _model = ('matrix', 'version', 'error', 'mask', 'segments')
+    matrix, version, error, mask, segments = '<matrix>', 5, 0, 6, ()
+
+
 def _run(fx, it, content, whole_mode, whole_enc, fit_single=None, chunk_version=None, **kw):
     """Interpret encode_sequence with recorders.  chunk_version: f(chunk) -> version for find_version on a chunk."""
     md = modes(fx)
@@ -78,7 +85,7 @@ def _run(fx, it, content, whole_mode, whole_enc, fit_single=None, chunk_version=
         rec['keep'].append(segments)
         rec['_encode'].append(dict(segid=id(segments), what=seg_of.get(id(segments), seg_of.get(id(first))), error=error, version=version, mask=mask,
                                    eci=eci, boost_error=boost_error, sa_info=sa_info, mode=first.mode, encoding=first.encoding))
-        return ('SYM', len(rec['_encode']))
+        return _CodeStub(('SYM', len(rec['_encode'])))
 
     def parity(content_, encoding=None):
         rec['parity'].append((content_, encoding))
@@ -177,6 +184,11 @@ def r2(fx):
             and isinstance(e[0]['what'], tuple) and (e[0]['mask'], e[0]['error'], e[0]['boost_error'], e[0]['eci']) == (5, lv['Q'], False, True)
         yield ob(f'message fits version {fit} <= requested {v}: one plain symbol of version {v} with the requested mask, level, boost flag, eci', ok, fn,
                  got=[(x['version'], x['sa_info'], x['mask'], x['error'], x['boost_error'], x['eci']) for x in e], want=[(v, None, 5, lv['Q'], False, True)])
+    for kw_ in (dict(version=5), dict(symbol_count=4)):
+        res, rec = _run(fx, it, CONTENT * 3, 'byte', 'iso-8859-1', fit_single=9, **kw_)
+        masks = [x['mask'] for x in rec['_encode']]
+        yield ob(f'no mask requested ({list(kw_)[0]}): the mask of every symbol is chosen for that symbol', isinstance(res, list) and len(masks) > 1
+                 and all(m is None for m in masks), fn, got=masks if isinstance(res, list) else res, want='mask=None for every symbol')
     res, rec = _run(fx, it, CONTENT * 3, 'byte', 'iso-8859-1', fit_single=9, version=5, mask=3, boost_error=False)
     yield ob('message needs version 9 > requested 5: split into Structured Append symbols, each with the requested mask / boost flag', isinstance(res, list) and
              all(x['sa_info'] is not None and x['version'] == 5 and x['mask'] == 3 and x['boost_error'] is False for x in rec['_encode']) and len(res) > 1, fn,
@@ -218,8 +230,12 @@ def r3(fx):
         rec, res, info = trace_encode(fx, 5, 'M', 'M', sa_info=sa)
         buf = info['buffers'][0] if len(info['buffers']) == 1 else None
         need(buf is not None, '_encode: one bit buffer expected')
-        hdr = [a for a in buf.appends if isinstance(a[0], int)]
         ws = [r for r in rec if r[0] == 'write_segment']
+        # the bits in the buffer when the first segment is written (however many append calls produced them)
+        nhdr = ws[0][3] if ws else len(buf.bits)
+        hbits = list(buf.bits[:nhdr])
+        want_bits = [(v >> (w - 1 - k)) & 1 for v, w in want_hdr for k in range(w)]
+        hdr = want_hdr if hbits == want_bits else hbits
         boost = [r for r in rec if r[0] == 'boost_error_level']
         is_sa = (list(boost[0][1][4:]) + [boost[0][2].get('is_sa', False)])[0] if boost else None
         yield ob(f'header bits {"with" if sa else "without"} Structured Append information: written before the first segment; the level booster is told',
